@@ -578,7 +578,7 @@ Fixpoint rri_expr_with (any mut : bool) (p : prog) (e : expr) : expr :=
 Definition rri_with (any mut : bool) (p : prog) : prog :=
   map (map_stmt (rri_expr_with any mut p) (fun e => strip_with any mut p (rri_expr_with any mut p e))) p.
 Definition rri := rri_with false false.
-Definition rri_before_116947d := rri_with false true.
+Definition rri_before_608b244 := rri_with false true.
 Definition rri_before_32fac44 := rri_with true true.
 
 (* ---------------------------------------------------------------- optimize_contains_types *)
